@@ -30,7 +30,7 @@ from xsim.snapshot import Snapshot, compare
 PID = "C16"
 LEVEL = "exploration"
 TIERS = {
-    "quick": {"runs": 2400, "batch": 8, "timeout_s": 600, "max_n": 10, "max_burn": 6, "shrink_budget": 80},
+    "quick": {"runs": 6000, "batch": 8, "timeout_s": 600, "max_n": 10, "max_burn": 6, "shrink_budget": 80},
     "thorough": {"runs": 60000, "batch": 16, "timeout_s": 1800, "max_n": 40, "max_burn": 20, "shrink_budget": 160},
 }
 RULE = ("Configuration = sampler {mh, mhcustom with a deterministic contraction, _dummy1d} x nsamples 1-10 (quick) x "
